@@ -123,6 +123,11 @@ SaveRecs(hs, ents) == [j \in 1..Len(ents) |-> EntRec(ents[j])] \o (IF hs # ZeroH
 HeaderRecs(m, h)   == <<CrcRec, MetaRec(m)>> \o (IF h # ZeroHS THEN <<StRec(h)>> ELSE <<>>)
 
 -------------------------------------------------------------------------------
+\* every segment before the tail is completely covered by fdatasyncs (always so in the
+\* normal mode; in optimized mode a roll leaves the old tail flushed only, and later
+\* fdatasyncs reach the new file only)
+Contiguous == synced >= segs[Len(segs)].first - 1
+
 Create(o, m) ==
   /\ mode = "none"
   /\ recs' = <<CrcRec, MetaRec(m), SnapRec(Snap0)>>
@@ -149,9 +154,10 @@ Save(hs, ents, cut) ==
         /\ enti' = e1
         /\ segs' = (IF cut THEN Append(segs, [first |-> Len(r1) + 1, idx |-> e1 + 1]) ELSE segs)
         /\ handed' = (IF must \/ cut THEN Len(r2) ELSE handed)
-        /\ synced' = (IF cut /\ ~opt THEN Len(r2) ELSE IF fs THEN Len(r1) ELSE synced)
+        /\ synced' = (IF cut /\ ~opt THEN Len(r2)
+                      ELSE IF fs /\ Contiguous THEN Len(r1) ELSE synced)
         /\ pproc'  = (IF must THEN Len(r1) ELSE pproc)
-        /\ ppow'   = (IF fs THEN Len(r1) ELSE ppow)
+        /\ ppow'   = (IF fs /\ (~opt \/ Contiguous) THEN Len(r1) ELSE ppow)
   /\ UNCHANGED <<mode, opt, locks, img, snapq, res>>
 
 SaveSnapshot(s) ==
@@ -176,7 +182,9 @@ ReleaseLockTo(i) ==
 Close ==
   /\ mode = "append"
   /\ mode' = "closed"
-  /\ handed' = Len(recs) /\ synced' = Len(recs) /\ pproc' = Len(recs) /\ ppow' = Len(recs)
+  /\ handed' = Len(recs) /\ pproc' = Len(recs)
+  /\ synced' = (IF Contiguous THEN Len(recs) ELSE synced)
+  /\ ppow' = (IF ~opt \/ Contiguous THEN Len(recs) ELSE ppow)
   /\ UNCHANGED <<recs, segs, enti, opt, locks, img, snapq, res>>
 
 \* a clean restart: Open + ReadAll of a closed log, then appending continues
@@ -256,7 +264,10 @@ Reopen(s) ==
 -------------------------------------------------------------------------------
 (* Properties.                                                                 *)
 \* the prefixes a reopen of image im may legitimately stand for
+\* pw: in the normal mode the promise ppow; in optimized mode the contiguous prefix covered
+\* by issued fdatasyncs (the model's `synced`, the implementation's report in a trace)
 Floor(im, pp, pw) == IF im.kind = "proc" THEN pp ELSE pw
+PowFloor == IF opt THEN synced ELSE ppow
 Allowed(rs, im, pp, pw) ==
   (Floor(im, pp, pw)..Len(rs)) \cup (IF im.flip > 0 THEN {im.flip - 1, im.flip} ELSE {})
 
@@ -282,7 +293,7 @@ SyncPolicy == /\ synced <= handed /\ handed <= Len(recs)
               /\ pproc <= handed /\ ppow <= synced
 
 ReopenIsDurablePrefix ==
-  mode = "read" => ResultAllowed(recs, segs, img, pproc, ppow, snapq, res)
+  mode = "read" => ResultAllowed(recs, segs, img, pproc, PowFloor, snapq, res)
 
 NoCorruptDataReturned ==
   mode = "read" => NothingInvented(recs, snapq, res)
@@ -309,7 +320,7 @@ EveryImageReopensWell ==
           TL == [p \in 0..Len(recs) |-> ReadFromLoose(recs, segs, p, s)] IN
       \A im \in Images : \A r \in ReadResultsBy(LAMBDA n : T[n], recs, segs, im, s)
                                   \cup ReadResultsBy(LAMBDA n : TL[n], recs, segs, im, s) :
-         /\ r.err # "" \/ \E p \in Allowed(recs, im, pproc, ppow) : r = TL[p]
+         /\ r.err # "" \/ \E p \in Allowed(recs, im, pproc, PowFloor) : r = TL[p]
          /\ MustSucceed(segs, im) => (r.err = "" \/ T[im.n].err # "")
          /\ NothingInvented(recs, s, r)
 
